@@ -63,6 +63,8 @@ func workerC13(args []string) int {
 			runRepoWalk(c, "C13", disk, guidedWalk(g, init, plans), seed*31+int64(wi), "", nil)
 		}
 	}
+	fmt.Println("PHASE sigretry")
+	c13SigRetry(thorough)
 	fmt.Println("PHASE background")
 	c13Background(rng, thorough)
 	fmt.Println("PHASE ocsp")
@@ -87,6 +89,63 @@ func watchdog(name string, d time.Duration, f func()) {
 	case <-done:
 	case <-time.After(d):
 		fmt.Printf("HANG %s did not return within %v\n", name, d)
+	}
+}
+
+// c13SigRetry replays the schedule of EntryLocks.tla in which a refresh resets the 'last refresh failed signature
+// verification' state between a handshake's read of the flag (under the read lock) and its retry under the write lock:
+// the handshake is parked at the hook right after it released the read lock, a good refresh runs to completion, then the
+// handshake continues. It must neither crash nor hang.
+func c13SigRetry(thorough bool) {
+	for _, disk := range []bool{false, true} {
+		rw, err := newRepoWorld(disk, "verify", false, 99)
+		if err != nil {
+			fmt.Println("WORKER-ERROR", err)
+			return
+		}
+		// loaded with a good list, then a refresh with a bad signature: flag set, pending signature kept
+		rw.serve("good", []string{"x", "z"})
+		rw.w.Handshake(rw.chains["driver"])
+		rw.serve("badsig", []string{"y", "z"})
+		rw.w.RefreshAll()
+		parked := make(chan struct{})
+		resume := make(chan struct{})
+		var once sync.Once
+		verifhook.Set(func(site string, kv ...any) {
+			if site == "repo.add.unlocked" && len(kv) >= 3 {
+				if flag, _ := kv[2].(bool); flag {
+					first := false
+					once.Do(func() { first = true })
+					if first {
+						close(parked)
+						<-resume
+					}
+				}
+			}
+		})
+		done := make(chan world.Result, 1)
+		go func() { done <- rw.w.Handshake(rw.chains["driver"]) }()
+		select {
+		case <-parked:
+			rw.serve("good", []string{"y", "z"})
+			rw.w.RefreshAll() // resets the flag and the pending signature
+			close(resume)
+		case r := <-done:
+			fmt.Println("NOTE sigretry: the handshake did not see the flag:", r.Verdict)
+			done <- r
+		case <-time.After(20 * time.Second):
+			fmt.Println("HANG sigretry handshake never reached the retry point")
+		}
+		select {
+		case r := <-done:
+			if r.Verdict == "panic" {
+				fmt.Println("CRASH handshake after a concurrent reset of the failed-signature state panicked:", r.Panic)
+			}
+		case <-time.After(30 * time.Second):
+			fmt.Println("HANG sigretry handshake did not return")
+		}
+		verifhook.Set(nil)
+		rw.close()
 	}
 }
 
@@ -182,6 +241,7 @@ func c13Stress(disk bool, rng *rand.Rand, thorough bool, tracePath string) error
 	org := origin.New()
 	defer org.Close()
 	ca := pki.NewCA(pki.CAOpts{Name: "Stress CA", Serial: 801})
+	evil := pki.NewCA(pki.CAOpts{Name: "Stress CA", Serial: 802, SKI: ca.Cert.SubjectKeyId})
 	const commonSerial = 100
 	marker := func(k int64) *big.Int { return big.NewInt(1000 + k) }
 	var published atomic.Int64
@@ -272,6 +332,9 @@ func c13Stress(disk bool, rng *rand.Rand, thorough bool, tracePath string) error
 				watchdog("stress handshake", 30*time.Second, func() { res = w.Handshake(chain) })
 				ev.E = ver.Load()
 				ev.Ans = res.Verdict
+				if res.Verdict == "panic" {
+					fmt.Println("CRASH stress handshake panicked:", res.Panic)
+				}
 				logEv(ev)
 			}
 		}()
@@ -286,13 +349,22 @@ func c13Stress(disk bool, rng *rand.Rand, thorough bool, tracePath string) error
 				return
 			default:
 			}
-			watchdog("cdp handshake", 30*time.Second, func() { w.Handshake(pki.Chain(driver.Cert, ca)) })
+			watchdog("cdp handshake", 30*time.Second, func() {
+				if r := w.Handshake(pki.Chain(driver.Cert, ca)); r.Verdict == "panic" {
+					fmt.Println("CRASH cdp handshake panicked:", r.Panic)
+				}
+			})
 			time.Sleep(time.Millisecond)
 		}
 	}()
 	for k := int64(2); k <= maxK; k++ {
 		if k%4 == 0 {
 			publish(k, false) // a failing refresh in between: the previous list stays
+			watchdog("refresh", 60*time.Second, func() { w.RefreshAll() })
+		}
+		if k%5 == 0 {
+			// a refresh that fails signature verification: sets the 'last refresh failed verification' state
+			org.SetBody("/s.crl", BuildCRL(CRLSpec{Signer: evil, Listed: []*big.Int{big.NewInt(commonSerial)}, Number: k}, Shape{Size: "s5", Pos: "last", Width: "w1", Ext: "none", Enc: "der"}))
 			watchdog("refresh", 60*time.Second, func() { w.RefreshAll() })
 		}
 		publish(k, true)
@@ -392,6 +464,9 @@ func init() {
 		for _, line := range strings.Split(text, "\n") {
 			if strings.HasPrefix(line, "HANG ") {
 				c.Violation("deadlock:"+strings.Fields(line)[1], line, map[string]any{"output_tail": tailStr(text, 60)})
+			}
+			if strings.HasPrefix(line, "CRASH ") {
+				c.Violation("crash:"+strings.Join(strings.Fields(line)[1:4], "-"), line, map[string]any{"output_tail": tailStr(text, 40)})
 			}
 			if strings.HasPrefix(line, "panic:") || strings.HasPrefix(line, "fatal error:") {
 				c.Violation("crash:"+line, "the process crashed during the concurrent scenarios", map[string]any{"output_tail": tailStr(text, 80)})
